@@ -543,8 +543,29 @@ def depth_check_func(e):
     return e.prog.funcs[cands.pop()]
 
 
+def _bootstrap_guard(e, R):
+    """While a worker is being bootstrapped (its process object -- initializer, initargs, depth -- is being unpickled, `_inheriting`
+    set) its nesting depth is not installed yet: code running then sees the depth the interpreter started with.  The spawn path refuses
+    to start a process in that state, unconditionally, for every start method; otherwise an executor created while unpickling an
+    initializer argument spawns workers that restart the depth count."""
+    chk = [f for q, f in e.prog.funcs.items() if q.startswith("loky.backend.spawn:") and
+           any((isinstance(n, ast.Attribute) and n.attr == "_inheriting") or (isinstance(n, ast.Constant) and n.value == "_inheriting") for n in func_nodes(f))
+           and any(isinstance(n, ast.Raise) for n in func_nodes(f))]
+    if len(chk) != 1:
+        raise AnalysisError(f"the bootstrapping guard of the spawn path is not unique: {[f.short for f in chk]}")
+    gp = e.prog.func("loky.backend.spawn:get_preparation_data")
+    g = e.cfg(gp)
+    calls = [n for n in g.nodes for c in calls_in(n) if chk[0].qualname in e.callees_of(c)]
+    esc = g.escape_path(g.entry, lambda n: n in calls, use_exc=False) if calls else [g.entry]
+    R.check(bool(calls) and esc is None, "R-DEPTH", f"{gp.short}: refuses to spawn while this process is still being bootstrapped, on every path", gp.short,
+            f"{chk[0].short}() unconditional", "a process can be spawned while the current worker is still unpickling its process object (initializer / "
+            "initargs): its depth is not installed yet, so an executor created there passes the depth check and hands depth 1 to its workers at any "
+            "real depth: the nesting bound is gone on that path", e.loc(gp, gp.node), g.fmt_path(esc) if esc else None)
+
+
 def r_depth(e, R):
     a = e.anchors
+    _bootstrap_guard(e, R)
     init = a.init
     dc = depth_check_func(e)
     g = e.cfg(init)
@@ -849,3 +870,55 @@ def r_vendor(e, R):
         R.fail("R-VENDOR", "child launch", "dynamic module names", f"only {n_dyn} of the two child launch commands (worker `-m`, tracker `-c`) name loky's module dynamically "
                "(`__module__` / `__name__`)", None)
     R.floor("R-VENDOR", 3)
+
+
+# ---------------------------------------------------------------------------
+# R-INIT-TRUTH
+# ---------------------------------------------------------------------------
+def r_init_truth(e, R):
+    """The initializer is a user object: "no initializer" is `None`, decided by identity.  Its truth value is user code (__bool__ / __len__):
+    a callable that is also an empty container, or defines a falsy __bool__, would silently be dropped and every worker would run tasks
+    uninitialised.  Checked wherever the value given as `initializer=` (public keyword of the executors) is handled before it is shipped."""
+    n_funcs = n_tests = 0
+    for q, f in e.prog.funcs.items():
+        if f.module.name == "__user__" or not (q.startswith("loky.initializers:") or q.startswith("loky.process_executor:") or q.startswith("loky.reusable_executor:")):
+            continue
+        names = {p_ for p_ in f.params + f.kwonly if p_ == "initializer"}
+        if q.startswith("loky.initializers:"):
+            names |= {p_ for p_ in f.params if "initializer" in p_}
+        if not names:
+            continue
+        # elements unpacked from a tainted container by a for / comprehension
+        conts = {p_ for p_ in f.params if "initializer" in p_ and p_ != "initializer"}
+        for n in ast.walk(f.node):
+            gens = n.generators if isinstance(n, (ast.ListComp, ast.SetComp, ast.GeneratorExp, ast.DictComp)) else []
+            loops = [(n.target, n.iter)] if isinstance(n, ast.For) else [(g_.target, g_.iter) for g_ in gens]
+            for tgt, it in loops:
+                if isinstance(it, ast.Name) and it.id in conts:
+                    first = tgt.elts[0] if isinstance(tgt, ast.Tuple) and tgt.elts else tgt
+                    if isinstance(first, ast.Name):
+                        names.add(first.id)
+        n_funcs += 1
+        tests = []
+        for n in ast.walk(f.node):
+            if isinstance(n, (ast.If, ast.IfExp, ast.While, ast.Assert)):
+                tests.append(n.test)
+            elif isinstance(n, ast.BoolOp):
+                tests += n.values
+            elif isinstance(n, ast.UnaryOp) and isinstance(n.op, ast.Not):
+                tests.append(n.operand)
+            elif isinstance(n, (ast.ListComp, ast.SetComp, ast.GeneratorExp, ast.DictComp)):
+                tests += [i_ for g_ in n.generators for i_ in g_.ifs]
+        for t_ in tests:
+            x = t_
+            while isinstance(x, ast.UnaryOp) and isinstance(x.op, ast.Not):
+                x = x.operand
+            if isinstance(x, ast.Name) and x.id in names:
+                n_tests += 1
+                R.fail("R-INIT-TRUTH", f.short, f"truth value of {x.id}", f"`{norm(t_)[:50]}` decides whether there is an initializer by the truth value of the user's object: "
+                       "a callable initializer whose class defines __len__ / __bool__ (an empty dict / list subclass used as a set-up object) is treated as absent "
+                       "and every worker -- initial, respawned, added by a resize -- runs tasks without having been initialised", e.loc(f, t_))
+    if n_funcs < 2:
+        raise AnalysisError(f"R-INIT-TRUTH: only {n_funcs} functions handling the `initializer` argument found")
+    if not n_tests:
+        R.ok("R-INIT-TRUTH", f"the {n_funcs} functions handling the `initializer` argument test it by identity only", None)
